@@ -486,6 +486,16 @@ Inductive case :=
 | CFs (ops : list fsop) (results : list ores)
 | CHuman (status : option Z) (is_sig : bool) (num : option Z).
 
+(* the exit paths the property statement speaks about: return, exception, sys.exit(n) with a
+   small integer, death by signal; SystemExit with None / a string / a big or negative
+   integer is modelled as the code behaves, but a difference there is not a violation *)
+Definition in_statement (p : path) : bool :=
+  match p with
+  | PReturn | PRaise | PSignal _ _ => true
+  | PSysExit (VInt n :: _) => in_range 0 n 256
+  | PSysExit _ => false
+  end.
+
 Definition init_world (cur0 : Z) (specs : list (Z * list wans * ans * list bool)) : world :=
   mk_world cur0
            (map (fun s => let '(c, p, f, r) := s in mk_proc c None (mk_or p f r)) specs)
@@ -514,7 +524,8 @@ Definition check_case (c : case) : Z :=
   | CReal m p code ab nb ca aa =>
     match seen m p with
     | None => 1
-    | Some v => if opt_eqb Z.eqb code (Some v) && ab && nb && negb ca && negb aa then 0 else 2
+    | Some v => if opt_eqb Z.eqb code (Some v) && ab && nb && negb ca && negb aa then 0
+                else if in_statement p || negb (ab && nb && negb ca && negb aa) then 2 else 1
     end
   | CFs ops res => if list_eqb ores_eqb (fs_run (mk_popen 1 None) ops) res then 0 else 2
   | CHuman s b n =>
